@@ -43,6 +43,17 @@ def check(ctx):
     sq = p.enum(E + 'Square')
     ce = p.enum(E + 'Castling')
 
+    # the specification's key depends on piece placement, castling flags, the e.p. file when a pawn of the side to move stands
+    # next to the pushed pawn, and the side to move: nothing about attacks or legality. hash() must not reach the move
+    # generator, the attack tables' users in position.cpp (is_in_check, move_gives_check, ...) or the search.
+    reach = p.reachable_from([h.id])
+    deep = sorted({short(p.funcs[x].name) for x in reach if p.funcs[x].file.startswith(p.root) and
+                   (p.funcs[x].file.endswith(('movegen.cpp', 'movegen.h', 'search.cpp', 'move_bitboards.cpp', 'score.cpp', 'endgame.cpp')) or
+                    short(p.funcs[x].name) in ('is_in_check', 'is_checkmate', 'is_stalemate', 'move_gives_check', 'do_move', 'undo_move'))})
+    ctx.ob('C18.R2.placement-only', 'hash', not deep,
+           'the key is computed from piece placement, rights, e.p. square and side only; hash() reaches no legality/attack code%s'
+           % ('' if not deep else ' — it reaches ' + ', '.join(deep[:6])), site=h.loc())
+
     # ---- which globals does hash() use, and how ------------------------------------------------------------------------------
     xors = [n for n in h.all_nodes() if n['k'] == 'CompoundAssignOperator' and cn(h, kids(n)[0]) == 'key']
     other = [n for n in h.all_nodes() if n['k'] in ('BinaryOperator', 'CompoundAssignOperator') and n.get('op', '').endswith('=') and
